@@ -1,10 +1,11 @@
 (* Extraction of the executable model (Gen + Model). *)
 From Coq Require Import ZArith List String.
 From Coq Require Import ExtrOcamlBasic ExtrOcamlString.
-From BB Require Import Base.PyBase Gen.Encoders.
+From BB Require Import Base.PyBase Gen.Encoders Gen.Criteria Model.Items Model.Passes Model.Render.
 Extraction Language OCaml.
 Separate Extraction
   BinInt.Z.add BinInt.Z.mul BinInt.Z.opp BinInt.Z.div_eucl BinInt.Z.eqb BinInt.Z.ltb
   PyBase.py_int_lit PyBase.as_int
   Encoders.relocate_hi Encoders.relocate_lo Encoders.sign_extend Encoders.lookup_register
-  Encoders.INSTRUCTIONS_final.
+  Encoders.INSTRUCTIONS_final
+  Passes.assemble_items Render.render.
